@@ -18,6 +18,7 @@ import TruthModel.Driver.C17
 import TruthModel.Driver.C03
 import TruthModel.Driver.C01
 import TruthModel.Driver.Files
+import TruthModel.Driver.FilesEcl10
 /-
 Line-protocol driver: `truthmodel <property-id>` reads one S-expression case per line on stdin and
 prints the model's canonical result line for it.  Imports only the import-free model files so it
